@@ -22,11 +22,12 @@ CASES = ['none', 'camelCase', 'PascalCase', 'snake_case', 'TRAIN_CASE']
 
 FEATURES = (
     "closed feature set of generated programs: enums, flags (ordinary / none / all), records (fields of primitive, "
-    "collection, enum, flags, record, optional types; optionally +cpp/+java/+objc/+cppcli base records in the C02 stream), "
+    "collection, enum, flags, record, optional types; optionally +cpp/+java/+objc/+cppcli base records in the C02 stream; in the C07 "
+    "`tgt` stream records / interfaces / named functions with every list of target keys, in every spelling), "
     "interfaces (+cpp, -cpp, unflagged; static methods only on +cpp; const; async with a return type; throws with error "
     "domains of the same namespace), named functions (±cpp, with parameters/returns of data types), inline function "
     "parameters on interface methods (over built-ins; in the C07 streams also over user types of an enclosing namespace, spelled "
-    "unqualified, with identifiers of every character-class shape: digit→letter, letter→digit, lower→upper, `__`), error domains (codes with primitive/enum/optional parameters), namespaces up to "
+    "unqualified, with identifiers of every character-class shape: digit→letter, letter→digit, lower→upper, `__`), error domains (codes with primitive/enum/optional parameters; in the C02 stream every second program up to 4 parameters of collection / flags / record types too), namespaces up to "
     "depth 2 with program-wide unique declaration names (also for anonymous functions: unique signatures), generic nesting up to 3; "
     "identifiers outside all target keyword lists; no deriving, no @extern/@import, "
     "no self-referential function types, no async method without return type (DESIGN §9 rows 8-13, 38-57)"
